@@ -316,7 +316,7 @@ def evaluate(case):
             # with the default solver tolerances (tol_p = tol_m = 1e-5) the two runs may stop one Newton step apart when an
             # error is close to its threshold, so they agree to the solver tolerance only (same policy as C04's differential)
             tolkw = dict(ptol=1e-7, ttol=1e-5, mrel=1e-6, drel=1e-5, mabs=1e-7) if "tol_m" in opts else \
-                dict(ptol=1e-4, ttol=1e-2, mrel=1e-3, drel=1e-2, mabs=1e-4)
+                dict(ptol=1e-3, ttol=1e-2, mrel=1e-3, drel=1e-2, mabs=1e-4)   # dp_friction_loss_bar lags a Newton step: 1.7e-4 seen
             for d_ in compare_nets(a2, b2, **tolkw)[:1]:
                 f.append(Finding("pipeflow", "C15.pipeflow.results", d_))
         elif ra.ok:
